@@ -53,7 +53,7 @@ BUILT = {
     ),
     "C08": (
         "explicit-state BFS over operation histories on one shared CID to the fixpoint of the canonical CID state; differential oracle against a freshly loaded CID",
-        "25 operations (reads in 3 modes, abandoned and never-closed reads, readers constructed now and consumed later, validate, writes with/without close, CutplaceApp.validate) are applied in every distinct canonical state of the shared CID (structural snapshot of its check objects plus the readers still held); the search reaches the fixpoint (161 states), so histories of every length are covered; every observation must equal that of the same operation on a fresh CID; histories up to depth 2/3 are also enumerated without merging.",
+        "27 operations (reads in 3 modes, abandoned and never-closed reads, readers constructed now and consumed later, validate, writes with/without close, CutplaceApp.validate) are applied in every distinct canonical state of the shared CID (structural snapshot of its check objects plus the readers still held); the search reaches the fixpoint, so histories of every length are covered; every observation must equal that of the same operation on a fresh CID; histories up to depth 2/3 are also enumerated without merging.",
         "Trusted: the structural snapshot (mc/snapshot.py) as state identity; held generators are closed by the harness.",
         "DESIGN.md §4 C08",
     ),
@@ -134,6 +134,26 @@ BUILT = {
 NOT_YET = "check not built yet in this session; the design (DESIGN.md §4) decides it by bounded exhaustive exploration"
 
 
+# extensions added after the seeded-change waves 5 and 6 (appended to the level text)
+ADDENDA = {
+    "C01": "Decimal probes include neighbours at distance 1E-30 of every limit (computed exactly) and 31-digit limits.",
+    "C02": "Choice / Constant values that begin or end with a quote character are included; every cell is validated twice on the same field object.",
+    "C04": "With row checks declared, two Readers constructed up front on one CID are consumed one after the other and the second is judged like the first; returned rows are read only after the iteration has finished.",
+    "C06": "The unterminated-quote fault is injected under six quote / escape / quoting / line-delimiter configurations; the tree's own binary .xls workbook is damaged byte by byte (any ending but a cutplace data error fails, a container failure must show in every mode).",
+    "C07": "One Reader object is iterated three times over a rewound source; delimited header records also span several physical lines (quoted line breaks).",
+    "C08": "27 operations including a Reader iterated twice and a Writer used as context manager.",
+    "C09": "Every CID is loaded twice (verdict and definition must not change); every pair of property rows is exchanged and the block reversed.",
+    "C10": "Pool extended by 'sound first token + broken rest' values and lengths open on both sides; 33 natively typed Excel cells (date / time / duration formatted numbers outside the date range, extreme numbers, booleans, error values) at every data position; bit flips over the tree's own .xls workbook, each read under an alarm (non-termination is reported).",
+    "C11": "Every case is loaded twice in one process and verdict and effective format are compared.",
+    "C12": "Round trips also go through a file that the reader opens itself (path source), through rowio and the API.",
+    "C13": "The bounded enumeration is repeated (shorter strings, four width lists) through files the reader opens itself.",
+    "C14": "Fixed data also without line delimiter (none); delimited rows include an accepted cell ending in CR LF.",
+    "C17": "ODS data are stored with column runs and inline elements; tables include rows ending in two or three empty cells.",
+    "C18": "CIDs with one and two header rows are included (the limit counts header rows on the command line as in the API).",
+    "C20": "A field with the multi-part length '1, 3...4' is included; for the writer, header rows hold line breaks.",
+}
+
+
 def main():
     ids = [json.loads(line)["id"] for line in open(os.path.join(HERE, "properties.jsonl"))]
     checks = []
@@ -141,6 +161,8 @@ def main():
     for pid in ids:
         if pid in BUILT:
             technique, text, note, ref = BUILT[pid]
+            if pid in ADDENDA:
+                text = text + " " + ADDENDA[pid]
             checks.append({
                 "property_id": pid,
                 "quick_cmd": "./check %s --tier quick" % pid,
